@@ -16,6 +16,7 @@ package engine
 
 import (
 	"bytes"
+	"strings"
 
 	"github.com/openGemini/openGemini/engine/comm"
 	"github.com/openGemini/openGemini/engine/executor"
@@ -484,7 +485,7 @@ func (r *recordIter) setStringColumnMeta(timeColVals *record.ColVal, idx int, re
 		if colIndex == 0 || timeCol < firstVTime {
 			firstIndex = index
 			firstVTime = timeCol
-			rec.ColMeta[idx].SetFirst(cols[index-nilCount], timeCol)
+			rec.ColMeta[idx].SetFirst(strings.Clone(cols[index-nilCount]), timeCol)
 		}
 
 		if colIndex == 0 || timeCol >= lastVTime {
@@ -493,7 +494,8 @@ func (r *recordIter) setStringColumnMeta(timeColVals *record.ColVal, idx int, re
 		}
 	}
 
-	rec.ColMeta[idx].SetLast(cols[lastIndex], lastVTime)
+	// the strings of StringValues alias the column's buffer, which setColValInAux rewrites below
+	rec.ColMeta[idx].SetLast(strings.Clone(cols[lastIndex]), lastVTime)
 	rec.ColMeta[idx].SetCount(countV)
 	setColValInAux(timeColVals, idx, ops, rec, -1, firstIndex, -1, lastIndex)
 }
